@@ -11,14 +11,14 @@ func init() { Registry["C05"] = C05; Registry["C06"] = C06 }
 
 // collTerms are the provenance patterns of every collateral artifact on one alternative.
 type collTerms struct {
-	ok                                   bool
-	why                                  string
-	leaf, inter, root                    pat.M // quote chain
-	tSigner, tRoot, qSigner, qRoot       pat.M // collateral issuer chains
-	pSigner, pRoot                       pat.M // PCK CRL issuer chain
-	pckCrl, rootCrl                      pat.M
-	tcbInfo, qeID                        *flow.Term
-	respPck, respRootCrl                 *flow.Term
+	ok                             bool
+	why                            string
+	leaf, inter, root              pat.M // quote chain
+	tSigner, tRoot, qSigner, qRoot pat.M // collateral issuer chains
+	pSigner, pRoot                 pat.M // PCK CRL issuer chain
+	pckCrl, rootCrl                pat.M
+	tcbInfo, qeID                  *flow.Term
+	respPck, respRootCrl           *flow.Term
 }
 
 func issuerChain(resp *flow.Term, phrase string) (signer, root pat.M) {
@@ -72,7 +72,9 @@ func resolveColl(a *flow.Alt, q quoteTerms, needCrl bool) collTerms {
 	return c
 }
 
-func nameStr(x pat.M, f string) pat.M { return pat.Call("(crypto/x509/pkix.Name).String", pat.Field(x, f)) }
+func nameStr(x pat.M, f string) pat.M {
+	return pat.Call("(crypto/x509/pkix.Name).String", pat.Field(x, f))
+}
 
 // crlAuthGates: validateCRL(crl, cert).
 func crlAuthGates(rule, name string, crl, cert pat.M) []gateSpec {
